@@ -907,7 +907,13 @@ func (e *CEnv) coerceTo(v CV, s Sort) Term {
 func (e *CEnv) evalAddr(x CExpr) (CV, error) {
 	if id, isID := x.(*CIdent); isID && e.frame != nil {
 		// addr(v): the cell of an address-taken local variable (loop invariants)
-		if ent, ok := e.frame.env[id.Name]; ok && ent.isAddr {
+		lname := id.Name
+		if _, ok := e.frame.env[lname]; !ok && e.ex != nil && e.ex.localAlias != nil {
+			if now, renamed := e.ex.localAlias[lname]; renamed {
+				lname = now
+			}
+		}
+		if ent, ok := e.frame.env[lname]; ok && ent.isAddr {
 			if t, ok := e.frame.regs[ent.v]; ok {
 				return CV{T: t, GoT: ent.v.Type()}, nil
 			}
